@@ -2,11 +2,13 @@ package memberlist
 
 func init() {
 	vRegister("H_C10_Sequence", H_C10_Sequence)
+	vRegister("H_C10_PlainVersions", H_C10_PlainVersions)
 }
 
 type vBcast struct {
 	msg    []byte
-	group  int // plain broadcasts invalidate older plain broadcasts of the same group
+	group  int // plain broadcasts invalidate queued plain broadcasts of the same group whose version is not newer
+	ver    int
 	fin    int
 	name   string
 	seq    int // model: submission order
@@ -30,7 +32,7 @@ func (b vUniqueB) UniqueBroadcast()             {}
 
 func (b vPlainB) Invalidates(o Broadcast) bool {
 	if p, ok := o.(vPlainB); ok {
-		return p.group == b.group
+		return p.group == b.group && p.ver <= b.ver
 	}
 	return false
 }
@@ -52,17 +54,28 @@ func (q *vQModel) live() int {
 
 // C10: arbitrary operation sequences against a reference list model.
 func H_C10_Sequence() {
-	nn := 0
-	tq := &TransmitLimitedQueue{RetransmitMult: 1 + vPick(2)}
-	tq.NumNodes = func() int { return nn }
-	model := &vQModel{}
-	L := 4
 	// operation alphabet: quick = {queue x, queue y, queue unique(2 bytes), get(overhead 2), prune, reset};
 	// thorough = all nine operation variants
 	alphabet := []int{0, 1, 3, 6, 7, 8}
 	if vTier() == 1 {
 		alphabet = []int{0, 1, 2, 3, 4, 5, 6, 7, 8}
 	}
+	vC10Run(alphabet, 4, false)
+	vCover("c10.sequence")
+}
+
+// C10 for broadcasts that are neither named nor unique and whose Invalidates is a version order (a late, older
+// version coexists with a newer one; a still newer one supersedes both at once): same reference model.
+func H_C10_PlainVersions() {
+	vC10Run([]int{4, 6, 7}, 4+vTier(), vTier() == 0)
+	vCover("c10.plain")
+}
+
+func vC10Run(alphabet []int, L int, coarse bool) {
+	nn := 0
+	tq := &TransmitLimitedQueue{RetransmitMult: 1 + vPick(2)}
+	tq.NumNodes = func() int { return nn }
+	model := &vQModel{}
 	for step := 0; step < L; step++ {
 		op := alphabet[vPick(len(alphabet))]
 		switch {
@@ -87,8 +100,9 @@ func H_C10_Sequence() {
 			case 4:
 				b.msg = make([]byte, 2)
 				b.group = 7
+				b.ver = vPick(3)
 				for _, o := range model.items {
-					if o.live && o.group == 7 {
+					if o.live && o.group == 7 && o.ver <= b.ver {
 						o.live = false
 					}
 				}
@@ -97,9 +111,18 @@ func H_C10_Sequence() {
 			model.items = append(model.items, b)
 			tq.QueueBroadcast(bc)
 		case op <= 6: // get
-			nn = []int{0, 9, 99}[vPick(3)]
+			if !coarse {
+				nn = []int{0, 9, 99}[vPick(3)]
+			}
 			overhead := 2 * (op - 5)
-			limit := vRange(0, 9)
+			limit := 0
+			if coarse {
+				// room for one message up to room for two, symbolic
+				nn = []int{0, 99}[vPick(2)]
+				limit = vRange(4, 9)
+			} else {
+				limit = vRange(0, 9)
+			}
 			limitTr := retransmitLimit(tq.RetransmitMult, nn)
 			got := tq.GetBroadcasts(overhead, limit)
 			// reference: tier by tier, largest then newest that fits
@@ -186,5 +209,4 @@ func H_C10_Sequence() {
 			}
 		}
 	}
-	vCover("c10.sequence")
 }
